@@ -158,6 +158,28 @@ def dump(repo: str) -> dict:
     out["frame_handlers"] = [
         [int(m.value), frames.get_frame_handler(int(m.value))] for m in const.FrameType
     ]
+    # -- C05 (sensor data / regulator data): name tuples and layout constants
+    from pyplumio.structures import (
+        fuel_level,
+        mixer_sensors,
+        modules,
+        outputs,
+        regulator_data,
+        statuses,
+        temperatures,
+    )
+
+    out["sensors"] = {
+        "outputs": list(outputs.OUTPUTS),
+        "temperatures": list(temperatures.TEMPERATURES),
+        "statuses": list(statuses.STATUSES),
+        "modules": list(modules.MODULES),
+        "lambdaStates": [[m.name, int(m.value)] for m in const.LambdaState],
+        "fuelLevelOffset": int(fuel_level.FUEL_LEVEL_OFFSET),
+        "statusesSize": int(statuses.STATUSES_SIZE),
+        "mixerSensorSize": int(mixer_sensors.MIXER_SENSOR_SIZE),
+        "regdataVersion": str(regulator_data.REGDATA_VERSION),
+    }
     return out
 
 
@@ -233,6 +255,17 @@ def emit_lean(d: dict) -> dict[str, str]:
         body += f"def {name} : Desc := {row(r)}\n\n"
     body += "end PlumVerif.Gen\n"
     files["Params.lean"] = body
+
+    sn = d["sensors"]
+    body = hdr + "namespace PlumVerif.Gen\n\n"
+    for k in ("outputs", "temperatures", "statuses", "modules"):
+        body += f"def {k}Names : List String := " + lean_list([lean_str(x) for x in sn[k]], 5) + "\n\n"
+    body += pairs("lambdaStates", sn["lambdaStates"])
+    for k in ("fuelLevelOffset", "statusesSize", "mixerSensorSize"):
+        body += f"def {k} : Nat := {int(sn[k])}\n"
+    body += f"def regdataVersion : String := {lean_str(sn['regdataVersion'])}\n\n"
+    body += "end PlumVerif.Gen\n"
+    files["Sensors.lean"] = body
     return files
 
 
